@@ -108,6 +108,15 @@ def run(ck, tier):
         pv = Prov(f)
         roots = arg_roots(f, pv, t["args"][1])
         from_chunks = any(o[0] == "call" and last(norm(o[3] or o[2] or "")) == "iter_chunks" for o in roots) and any(o[0] == "call" and last(norm(o[3] or o[2] or "")) == "next" for o in roots)
+        if not from_chunks and f.get("kind") == "Closure" and ("arg", 2) in flatten(pv.trace_operand(t["args"][1])):
+            # the call sits in a closure of an adaptor chain: iter_chunks().flat_map(|chunk| run_on_chunk(.., chunk, ..))
+            par = p.fns.get(f.get("parent") or "")
+            if par is not None:
+                ppv = Prov(par)
+                for pb, pt in par.calls():
+                    if method(pt) in ("flat_map", "map", "for_each", "filter_map", "fold") and any(x[0] == "agg" and x[1] == "closure" and x[2] == f.name for x in ppv.trace_operand(pt["args"][-1])):
+                        if any(o[0] == "call" and last(norm(o[3] or o[2] or "")) == "iter_chunks" for o in arg_roots(par, ppv, pt["args"][0])):
+                            from_chunks = True
         ck.decide(rule, "%s:chunk-argument" % keyname(p, f), from_chunks, f.loc(t["ln"]), "the token slice passed to run_on_chunk is an item of iter_chunks(): %s" % from_chunks)
     fs = byk.get(RUN)
     if ck.anchor(rule, "run_on_chunk", fs):
@@ -120,8 +129,15 @@ def run(ck, tier):
             if d_ in ("harper_core::patterns::Pattern::matches", "harper_core::linting::pattern_linter::PatternLinter::match_to_lint"):
                 n += 1
                 roots = arg_roots(f, pv, t["args"][1])
-                cuts = [o for o in roots if o[0] == "call" and last(norm(o[3] or o[2] or "")) == "index"]
-                base_ok = bool(cuts) and all(("arg", 2) in flatten(pv.trace_operand(f.blocks[o[1]]["t"]["args"][0])) for o in cuts)
+                cuts = [o for o in roots if o[0] == "call" and last(norm(o[3] or o[2] or "")) in ("index", "get", "split_at", "get_unchecked")]
+                # every cut is a cut of the chunk parameter, or of an earlier cut of it (chunk[a..][..b])
+
+                def of_chunk(o, depth=0):
+                    src = flatten(pv.trace_operand(f.blocks[o[1]]["t"]["args"][0]))
+                    if ("arg", 2) in src:
+                        return True
+                    return depth < 4 and any(x[0] == "call" and last(norm(x[3] or x[2] or "")) in ("index", "get", "deref") and of_chunk(x, depth + 1) for x in src)
+                base_ok = bool(cuts) and all(of_chunk(o) for o in cuts)
                 ck.decide(rule, "run_on_chunk:%s" % last(d_), base_ok, f.loc(t["ln"]), "receives a range-indexed sub-slice of the `chunk` parameter: %s" % base_ok)
         ck.floor(rule, "pattern calls in run_on_chunk", n, 2)
     match_to_lint_locality(ck, p, rule)
